@@ -10,7 +10,7 @@ from ..xlref import core as X
 ID = 'C02'
 RULE = ('Complete cross product of a value pool (numbers 0, +-1, 2, 3, fractions, 1.15, 2.675, 1e+-200; numeric, padded, '
         'non-numeric and empty text; TRUE/FALSE; blank reference; all 7 errors; thorough adds Python-float traps) x 12 binary '
-        'and 3 unary operators, each operand pair given as cell values (=B1 op C1 evaluated through a Dispatcher) and as '
+        'and 3 unary operators, each operand pair given as cell values (=B1 op C1 evaluated through a Dispatcher, and the compiled function of that formula called directly with the two cell values) and as '
         'literals (="3"+TRUE compiled and called) and as computed sub-expressions (=(1=1)+("3"&""): numpy scalars); plus Hypothesis random finite floats (subnormals, +-1e308, >2^53) and '
         'an oracle-free trichotomy/transitivity check of the six comparisons over all pool triples. Oracle: vf/xlref/core '
         '(own coercion, error, power, display and ordering rules). Non-trivial = operands of different kinds, or an '
@@ -87,6 +87,16 @@ def cell_unary(op, a):
     return sut.one(sol[out])
 
 
+def func_eval(text, vals):
+    """The compiled formula called directly with its cell inputs (no Dispatcher, no output filter in between)."""
+    key = ('f', text)
+    if key not in _DSP:
+        _DSP[key] = sut.compile_formula(text)
+    f = _DSP[key]
+    res = f(*[sut.rng(k, [[vals[k]]]) for k in f.inputs])
+    return sut.one(res)
+
+
 def lit_eval(f):
     try:
         func = sut.compile_formula(f)
@@ -128,14 +138,14 @@ def judge(opc, op, a, b, got, exp, tag):
 def check_pair(case):
     op, a, b, sp = case['op'], dec(case['a']), dec(case['b']), case['sp']
     exp, tag = X.binary(op, a, b)
-    if sp == 'cell':
+    if sp in ('cell', 'func'):
         try:
-            got = cell_binary(op, a, b)
+            got = cell_binary(op, a, b) if sp == 'cell' else func_eval('=B1%sC1' % op, {'B1': a, 'C1': b})
         except sut.Watchdog:
             raise
         except Exception as ex:
             got = Foreign('raised:%s' % type(ex).__name__)
-        text = '=B1%sC1 with B1=%r, C1=%r' % (op, a, b)
+        text = '=B1%sC1 with B1=%r, C1=%r%s' % (op, a, b, ' (compiled function called directly)' if sp == 'func' else '')
     elif sp == 'comp':
         text = '=%s%s%s' % (computed(a), op, computed(b))
         got = lit_eval(text)
@@ -173,14 +183,14 @@ def check_pair(case):
 def check_unary(case):
     op, a, sp = case['op'], dec(case['a']), case['sp']
     exp, tag = X.unary(op, a)
-    if sp == 'cell':
+    if sp in ('cell', 'func'):
         try:
-            got = cell_unary(op, a)
+            got = cell_unary(op, a) if sp == 'cell' else func_eval({'u-': '=-B1', 'u+': '=+B1', '%': '=B1%'}[op], {'B1': a})
         except sut.Watchdog:
             raise
         except Exception as ex:
             got = Foreign('raised:%s' % type(ex).__name__)
-        text = '%s on B1=%r' % (op, a)
+        text = '%s on B1=%r%s' % (op, a, ' (compiled function called directly)' if sp == 'func' else '')
     else:
         la = X.literal(a)
         text = {'u-': '=-%s', 'u+': '=+%s', '%': '=%s%%'}[op] % la
@@ -270,6 +280,7 @@ def _enum(tier):
         for a in P:
             for b in P:
                 yield {'k': 'pair', 'op': op, 'a': enc(a), 'b': enc(b), 'sp': 'cell'}
+                yield {'k': 'pair', 'op': op, 'a': enc(a), 'b': enc(b), 'sp': 'func'}
                 if not isinstance(a, Blank) and not isinstance(b, Blank):
                     yield {'k': 'pair', 'op': op, 'a': enc(a), 'b': enc(b), 'sp': 'lit'}
                     if not (isinstance(a, float) and abs(a) in (1e200, 1e-200)) and not (isinstance(b, float) and abs(b) in (1e200, 1e-200)):
@@ -283,6 +294,7 @@ def _enum(tier):
     for op in UN:
         for a in P:
             yield {'k': 'unary', 'op': op, 'a': enc(a), 'sp': 'cell'}
+            yield {'k': 'unary', 'op': op, 'a': enc(a), 'sp': 'func'}
             if not isinstance(a, Blank):
                 yield {'k': 'unary', 'op': op, 'a': enc(a), 'sp': 'lit'}
     yield {'k': 'order', 'pool': [enc(v) for v in P]}
